@@ -35,6 +35,9 @@ def pid_exists(pid):
         return True
     try:
         os.kill(pid, 0)
+    except OverflowError:
+        # pid is bigger than the maximum value of pid_t: no such process
+        return False
     except ProcessLookupError:
         return False
     except PermissionError:
